@@ -977,7 +977,7 @@ func TestVerif_C10_BarrierHistories(t *testing.T) {
 	shard, nshards := kit.Shard()
 	r := kit.NewResult(t, "c10-barrier-histories", seed, "seeded random histories (8..25 operations) on an AESGCMBarrier over an in-memory probe store (transactional and not, root and namespaced meta prefix): put / put-in-transaction / delete / encrypt / rotate(+create-upgrade) / rotate-root-key (also invalid sizes) / reload / persist-keyring-only / seal / unseal (always preceded by wrong, truncated, stale and malformed keys) / restart / destroy-upgrade / standby unseal-follow-seal on a second instance; after every unseal, restart, standby follow and at the end the reference model (live entries, current root key, 1+rotations = active term, upgrade entries) is compared with the barrier, its physical record headers and the keyring a fresh node loads; while sealed every data and key operation must be refused without touching the store and the keyring must be nil and zeroised. A history is non-trivial when it completed a rotation or root-key rotation and afterwards read entries back after an unseal/restart/standby follow; distinct by its operation-kind sequence")
 	defer r.Write(t)
-	n := kit.N(800, 24000)
+	n := kit.N(800, 60000)
 	for h := 0; h < n; h++ {
 		if (h/8)%nshards != shard {
 			continue
@@ -1004,6 +1004,9 @@ func TestVerif_C10_BarrierHistories(t *testing.T) {
 		if r.NViolations() > 20 {
 			break
 		}
+	}
+	if r.Get("sealed_begin_tx_granted_ops_checked") > 0 {
+		r.Note("observation (not a verdict): BeginTx/BeginReadOnlyTx on a sealed transactional barrier hand out a transaction (%d times here; only the store's begin is reached); every Get/Put/Delete/List/ListPage inside such a transaction was refused and none reached the store, which is what the property names", r.Get("sealed_begin_tx_granted_ops_checked"))
 	}
 	div := int64(nshards)
 	r.Require("rotations", 800/div)
@@ -1090,7 +1093,7 @@ func TestVerif_C10_BarrierCrash(t *testing.T) {
 	shard, nshards := kit.Shard()
 	r := kit.NewResult(t, "c10-barrier-crash", seed, "for each key operation of the barrier (rotate, rotate+create-upgrade, rotate-root-key, the two keyring-only persists, and a mixed sequence) after a seeded random pre-history: the operation runs on a journaling store; for every prefix k of its physical writes a fresh barrier instance is started on the store as a crash after k writes leaves it and unsealed with the pre-operation root key or the new one (k=0 must open with the old, k=all with the new); every entry written before the operation must read back, a fresh write must carry the loaded active term (never below the pre-operation term). Additionally a standby that was in sync before the operation is promoted on the prefix store (observation only). Every (operation, pre-history, prefix) is a distinct case")
 	defer r.Write(t)
-	rounds := kit.N(12, 240)
+	rounds := kit.N(12, 600)
 	ops := c10CrashOps()
 	for round := 0; round < rounds; round++ {
 		for oi, op := range ops {
@@ -1102,7 +1105,7 @@ func TestVerif_C10_BarrierCrash(t *testing.T) {
 			nsd := round%4 >= 2
 			rng := kit.NewRand(seed, 1_000_000+uint64(idx))
 			pre := fmt.Sprintf("bc:%d:%s", round, op.name)
-			if kit.OnlyCase() != "" && !strings.HasPrefix(kit.OnlyCase(), pre+":") {
+			if oc := kit.OnlyCase(); oc != "" && oc != pre && !strings.HasPrefix(oc, pre+":") {
 				continue
 			}
 			e := c10NewB(r, pre, rng, tx, nsd, rng.Chance(1, 3))
